@@ -99,3 +99,36 @@ def c20retry : Family where
     else some (if m.ok then "trace ends in the middle of a call" else m.why)
 
 end TarpcModel.Driver
+
+namespace TarpcModel.Driver
+
+/-- Family `c20mt`: bursts of truly parallel calls on one `RoundRobin`; the per-backend counts are
+those of `C20_rr_balanced` for the total number of calls so far (any interleaving). -/
+def c20mtCounts (n total : Nat) : List Nat :=
+  (List.range n).map fun j => total / n + (if j < total % n then 1 else 0)
+
+def c20mt : Family where
+  σ := Nat × Nat                 -- (backends, calls so far)
+  μ := Nat × Option String       -- (backends, first failure)
+  init ps := (param ps "n" 1, 0)
+  step s toks :=
+    match toks with
+    | ["burst", a, b] =>
+        match (a.drop 8).toNat?, (b.drop 6).toNat? with
+        | some t, some k =>
+            let total := s.2 + t * k
+            ((s.1, total), ["counts " ++ " ".intercalate ((c20mtCounts s.1 total).map toString)])
+        | _, _ => (s, ["bad-op"])
+    | _ => (s, ["bad-op"])
+  monInit ps := (param ps "n" 1, none)
+  monStep m toks :=
+    match toks with
+    | "counts" :: cs =>
+        let vs := cs.filterMap (·.toNat?)
+        let lo := vs.foldl min (vs.headD 0)
+        let hi := vs.foldl max 0
+        if hi - lo > 1 then (m.1, m.2.orElse fun _ => some s!"per-backend counts differ by {hi - lo} after concurrent calls: {cs}") else m
+    | _ => m
+  monVerdict m := m.2
+
+end TarpcModel.Driver
